@@ -167,6 +167,5 @@ Definition chunks_field (v : fieldv) : list (list byte) :=
   | FY l => [enc_u64 (N.of_nat (List.length l)); l]
   end.
 
-(* ---- allocation accounting (bytes requested by make([]byte, n) / make([]string, n)
-   with n taken from the stream, before any of the announced data has been read) ---- *)
+(* ---- allocation accounting: one string header per element appended to a []string ---- *)
 Definition string_header_size : N := 16.
